@@ -108,7 +108,15 @@ def oracle(pystog, case, res):
             continue
         want = model_term(qmin, s0, qmax, ri, case["lorch"])
         scale = abs(want) + (abs(s0) + 1) * qmin * qmin * 1e-2 + 1e-6 * mag * 2 / math.pi
-        if abs(d - want) > 1e-7 * scale + 1e-9 * mag:
+        # the closed forms cancel catastrophically for small Qmin*r: magnitude of the terms that are subtracted (rounding, not the property)
+        v = qmin * ri
+        if case["lorch"]:
+            a = math.pi / qmax
+            tm = ((abs(qmin * (ri - a)) + 2) / (ri - a) ** 2 + (abs(qmin * (ri + a)) + 2) / (ri + a) ** 2) / (2 * a) * abs(s0) / qmin \
+                + (1 / abs(ri - a) + 1 / abs(ri + a)) / (2 * a)
+        else:
+            tm = (2 * abs(v) + abs(v * v - 2) + 2) / abs(ri) ** 3 * abs(s0) / qmin + (1 + abs(v)) / ri ** 2
+        if abs(d - want) > 1e-7 * scale + 1e-9 * mag + 4e-15 * tm:
             return "added term %r at r=%r, integral of the linear-to-zero model gives %r (Qmin=%r S(Qmin)=%r lorch=%s)" % (float(d), float(ri), want, qmin, float(s0), case["lorch"])
     # depends on the data only through Qmin, S(Qmin), Qmax
     if len(case["yin"]) > 2:
